@@ -19,7 +19,20 @@ created after it - decorated for the other two, instances of both
 registered); probes of ONE class whose ``__events__`` is set per instance.
 Registration is part of the alphabet: ``add_handler`` of a listener that is
 already registered (still one listener) and ``remove_handler`` (no
-notification afterwards) - E1 layout "rereg" and E3 "registration-histories".
+notification afterwards) - E1 layout "rereg" and E3 "registration-histories";
+the latter also has ``clear()`` (every listener of that transform dropped, the
+stored values untouched).
+
+A transform is an EventDispatcher, so the notification of an assignment can
+be held back (``dispatch_enabled = False``) and released later.  Two E3
+families ("deferred", "deferred-interrupted") put disabling, enabling,
+``clear()`` and re-registration next to the assignments on two transforms,
+the second one with a listener that disables its own transform again from
+inside a callback, i.e. in the middle of a release.  Their oracle is the
+statement without any timing: nobody is told anything but a value stored on
+its own transform for its own event, once; once a transform dispatches again
+everybody has been told everything, the latest value last; properties read
+what was stored, whatever happened to the listeners.
 """
 import collections
 import itertools
@@ -66,7 +79,26 @@ RULE = ('E1: breadth-first search over histories of assignments '
         'and one assignment per property and transform, nothing registered '
         'at the start, NOT merged on states: after every assignment each '
         'listener registered there (however many times add_handler was '
-        'called) is told once, a removed one nothing.  E3 "constructor": '
+        'called) is told once, a removed one nothing; t<i>.clear() is an '
+        'operation as well (all listeners of t<i> removed) and after every '
+        'operation every property of both transforms reads the value last '
+        'stored there.  E3 "deferred": every sequence of 1..n operations '
+        '(n = 4 quick, 5 thorough) over t<i>.<position|rotation|scale> = '
+        'value, t<i>.dispatch_enabled = False / = True (also when it is '
+        'already), t<i>.clear() and re-registration of the listeners of '
+        't<i>, i in {0, 1}; three listeners on t0 (all events; a rotation '
+        'probe; position + scale), one on t1 (all events); the k-th '
+        'assignment of a property within a case takes the k-th value of a '
+        'fixed list (rotations 370, -10, 725.5, 359.5, 360, -190, 540, 90 - '
+        'all different modulo 360; vectors: Vec, plain tuple, Vec; always '
+        'fresh objects), so that every notification is traced to its '
+        'assignment.  E3 "deferred-interrupted": t0 starts disabled and its '
+        'all-events listener disables t0 again from inside the callback at '
+        'its j-th notification for every j of a set (every non-empty subset '
+        'of {1, 2} quick, {1, 2, 3} thorough) x every sequence of 1..n '
+        'operations (n = 5 quick, 6 thorough) over the three assignments on '
+        't0, t0.dispatch_enabled = True / = False, t0.clear() and '
+        't1.dispatch_enabled = True.  E3 "constructor": '
         'every combination of '
         '(position, rotation, scale) drawn from the same sets or omitted, '
         'positional and keyword.  E3 "reentrant": one correcting listener '
@@ -86,7 +118,11 @@ RULE = ('E1: breadth-first search over histories of assignments '
         'shortcut (rotation outside [0, 360), negative rotation, listener '
         'on the other instance / for another event standing by, no '
         'listener for the event, several listeners, plain tuple value, '
-        'assignment nested in a callback).')
+        'assignment nested in a callback, assignment while disabled, '
+        'notification delivered by a later operation, release interrupted '
+        'by a listener / resumed, the other transform enabled or cleared '
+        'while notifications are pending, clear() of a transform holding '
+        'assigned values).')
 
 EVENTS = ('on_position_change', 'on_rotation_change', 'on_scale_change')
 PROPS = ('position', 'rotation', 'scale')
@@ -802,8 +838,32 @@ REG_MAX_LEN = {'quick': 4, 'thorough': 5}
 def registration_ops():
     ops = [(verb, i, k) for verb in ('add', 'remove') for i in (0, 1)
            for k in range(len(REG_LISTENERS))]
+    ops += [('clear', i) for i in (0, 1)]       # t<i>.clear(): all listeners
     ops += [('set', i, prop) for i in (0, 1) for prop in PROPS]
     return ops
+
+
+def check_persistence(dim, ts, stored, verb, log, n_log):
+    """Every property of every transform reads what was last stored there
+    (or what it read when the transform was built), whatever operation -
+    registration, clear(), enabling / disabling dispatch, an assignment of
+    another property or on another transform - was just made."""
+    for (j, p), old in sorted(stored.items()):
+        now = getattr(ts[j], p)
+        ok = same_value(now, old)
+        if not ok:
+            try:                # a read may hand out an equal copy
+                ok = bool(now == old)
+            except Exception:
+                ok = False
+        if not ok:
+            raise Violation('stored_value_persists',
+                            f'after {verb}: t{j}.{p} reads {now!r}; the '
+                            f'value stored there was {old!r}', dim=dim,
+                            prop=p, op=verb)
+    if len(log) != n_log:
+        raise Violation('no_cross_talk', 'reading properties notified '
+                        'listeners', kind='read', dim=dim)
 
 
 def registration_cases(tier='thorough'):
@@ -829,10 +889,36 @@ def run_registration_case(case):
     reg = [set(), set()]
     adds = collections.Counter()    # (i, k): add_handler calls since removal
     removed = {}                    # (i, k): adds it had when it was removed
+    stored = {(j, p): getattr(ts[j], p) for j in (0, 1) for p in PROPS}
+    assigned = set()                # transforms holding an assigned value
+    cleared = set()                 # transforms cleared (until add_handler)
     n_calls = 0
     for op in seq:
         verb, i = op[0], op[1]
         t = ts[i]
+        if verb == 'clear':
+            feat = dict(dim=dim, op=verb)
+            del log[:]
+            try:
+                t.clear()
+            except Exception as exc:
+                raise Violation('registration_raises',
+                                f't{i}.clear() raised '
+                                f'{type(exc).__name__}: {exc}', **feat)
+            if log:
+                raise Violation('no_cross_talk', f't{i}.clear() notified '
+                                f'listeners', kind='registration', **feat)
+            for k in sorted(reg[i]):
+                removed[(i, k)] = adds[(i, k)]
+                adds[(i, k)] = 0
+                hits['listener_removed_by_clear'] += 1
+            reg[i].clear()
+            cleared.add(i)
+            if i in assigned:
+                hits['clear_of_transform_holding_assigned_values'] += 1
+            check_persistence(dim, ts, stored, verb, log, 0)
+            n_calls += 1 + len(stored)
+            continue
         if verb in ('add', 'remove'):
             k = op[2]
             feat = dict(dim=dim, op=verb)
@@ -858,6 +944,9 @@ def run_registration_case(case):
                 if (i, k) in removed:
                     hits['registered_again_after_removal'] += 1
                     del removed[(i, k)]
+                if i in cleared:
+                    hits['registered_after_clear'] += 1
+                    cleared.discard(i)
                 reg[i].add(k)
                 adds[(i, k)] += 1
             else:
@@ -868,6 +957,7 @@ def run_registration_case(case):
                     hits['remove_unregistered'] += 1
                 reg[i].discard(k)
                 adds[(i, k)] = 0
+            check_persistence(dim, ts, stored, verb, log, 0)
             n_calls += 1
             continue
         prop = op[2]
@@ -888,6 +978,11 @@ def run_registration_case(case):
         judge_calls(calls, listeners, i, prop, read, feat, hits,
                     removed=[REG_LISTENERS[k][0] for j, k in removed
                              if j == i])
+        stored[(i, prop)] = read
+        assigned.add(i)
+        check_persistence(dim, ts, stored, 'set', log, len(calls))
+        if i in cleared:
+            hits['assignment_after_clear'] += 1
         event = EVENT_OF[prop]
         for k, (label, kind) in enumerate(REG_LISTENERS):
             if event not in events_of(kind):
@@ -1089,6 +1184,369 @@ def run_reentrant_case(case):
     return {'calls': n_calls, 'hits': dict(hits), 'key': repr(case)}
 
 
+# -- E3: deferred notifications (dispatch_enabled, clear) ----------------------
+# A transform is an EventDispatcher: ``dispatch_enabled = False`` holds the
+# notifications back, ``dispatch_enabled = True`` releases them, ``clear()``
+# drops every listener.  The statement does not say WHEN a listener is told,
+# so the oracle of these parts only demands what holds under any timing:
+#   * whenever a listener is called, it is a listener of that transform for
+#     that event, and the one argument is the value stored by an assignment
+#     of that property on that transform which it has not been told yet
+#     (vectors: that very object; 2D rotation: that number - every rotation
+#     of one case reduces to a different number);
+#   * at every point where the harness knows that a transform dispatches
+#     (its own last write of dispatch_enabled there was True / clear(), and
+#     no callback has disabled it since) every listener has been told every
+#     assignment made while it was registered, and the notification it got
+#     last for a property is the last value assigned - the value the property
+#     reads;
+#   * every property always reads the value last stored.
+DEFER_ROTATIONS = (370, -10, 725.5, 359.5, 360, -190, 540, 90)
+DEFER_VECTORS = (1, 2, 0)       # indices into VECTORS: Vec, plain tuple, Vec
+PROP_OF = {e: p for p, e in EVENT_OF.items()}
+# (label, kind, home transform); 'pause' = the pausing listener below
+DEFER_LISTENERS = (('Pause', 'pause', 0), ('D0.rot', 'p1', 0),
+                   ('D0.pos-scale', 5, 0), ('D1.all', 7, 1))
+DEFER_MAX_LEN = {'quick': 4, 'thorough': 5}
+INTERRUPT_MAX_LEN = {'quick': 5, 'thorough': 6}
+INTERRUPT_ORDINALS = {'quick': 2, 'thorough': 3}
+
+
+class BasePauser(BaseListener):
+    """Listens to all three events.  On its n-th notification (counted over
+    the whole case) for every n in ``ordinals`` it disables dispatching on
+    its own transform from inside the callback ("hold further updates until
+    I have caught up"); with no ordinals it is a passive listener."""
+
+    def __init__(self, label, log, transform, ordinals):
+        super().__init__(label, log)
+        self.transform = transform
+        self.ordinals = frozenset(ordinals)
+        self.count = 0
+        self.fired = 0
+
+    def react(self, event, args, kwargs):
+        self.log.append((self.label, event, args, kwargs))
+        self.count += 1
+        if self.count in self.ordinals:
+            self.fired += 1
+            self.transform.dispatch_enabled = False
+
+    def on_position_change(self, *args, **kwargs):
+        self.react(EVENTS[0], args, kwargs)
+
+    def on_rotation_change(self, *args, **kwargs):
+        self.react(EVENTS[1], args, kwargs)
+
+    def on_scale_change(self, *args, **kwargs):
+        self.react(EVENTS[2], args, kwargs)
+
+
+PAUSER = desper.event_handler(*EVENTS)(
+    type('Pauser', (BasePauser,), {'__module__': __name__,
+                                   'events': frozenset(EVENTS)}))
+
+
+def defer_events_of(kind):
+    return frozenset(EVENTS) if kind == 'pause' else events_of(kind)
+
+
+def deferred_value(dim, prop, n):
+    """Value of the n-th assignment of ``prop`` within one case (counted
+    over both transforms): a fresh object, different from assignment to
+    assignment."""
+    if prop == 'rotation':
+        r = DEFER_ROTATIONS[n % len(DEFER_ROTATIONS)]
+        return r if dim == 2 else Vec3(r, 0, -r)
+    idx = DEFER_VECTORS[n % len(DEFER_VECTORS)]
+    comps = VECTORS[dim][idx]
+    if idx == PLAIN_TUPLE:
+        return tuple(list(comps))
+    return VEC[dim](*comps)
+
+
+def deferred_ops():
+    """Alphabet of part "deferred": everything on both transforms."""
+    ops = []
+    for i in (0, 1):
+        ops += [('set', i, prop) for prop in PROPS]
+        ops += [('off', i), ('on', i), ('clear', i), ('reg', i)]
+    return ops
+
+
+def interrupted_ops():
+    """Alphabet of part "deferred-interrupted": the transform of the pausing
+    listener, and the other one being enabled (although it is)."""
+    return ([('set', 0, prop) for prop in PROPS]
+            + [('on', 0), ('off', 0), ('clear', 0), ('on', 1)])
+
+
+def deferred_cases(tier='thorough'):
+    """(dim, start_off, ordinals, sequence): start_off = bit mask of the
+    transforms that are disabled before the sequence starts; ordinals = the
+    notifications at which the pausing listener disables its transform."""
+    ops = deferred_ops()
+    cases = []
+    for n in range(1, DEFER_MAX_LEN[tier] + 1):         # shortest first
+        for dim in (2, 3):
+            for seq in itertools.product(ops, repeat=n):
+                cases.append((dim, 0, (), seq))
+    return cases
+
+
+def interrupted_cases(tier='thorough'):
+    ops = interrupted_ops()
+    top = INTERRUPT_ORDINALS[tier]
+    ordinal_sets = [tuple(o for o in range(1, top + 1) if bits >> (o - 1) & 1)
+                    for bits in range(1, 2 ** top)]
+    cases = []
+    for n in range(1, INTERRUPT_MAX_LEN[tier] + 1):     # shortest first
+        for dim in (2, 3):
+            for ordinals in ordinal_sets:
+                for seq in itertools.product(ops, repeat=n):
+                    cases.append((dim, 1, ordinals, seq))
+    return cases
+
+
+def value_matches(got, value):
+    if is_number(value):
+        return is_number(got) and got == value
+    return got is value
+
+
+def run_deferred_case(case):
+    dim, start_off, ordinals, seq = case
+    hits = collections.Counter()
+    log = []
+    ts = [TRANSFORM[dim](), TRANSFORM[dim]()]
+    objs = []
+    pauser = None
+    for label, kind, home in DEFER_LISTENERS:
+        if kind == 'pause':
+            lis = pauser = PAUSER(label, log, ts[home], ordinals)
+        else:
+            lis = make_listener(kind, label, log)
+        objs.append(lis)
+        ts[home].add_handler(lis)
+    index = {label: k for k, (label, _, _) in enumerate(DEFER_LISTENERS)}
+    reg = [set(k for k, spec in enumerate(DEFER_LISTENERS) if spec[2] == i)
+           for i in (0, 1)]
+    enabled = [True, True]      # what the harness knows, not what desper says
+    for i in (0, 1):
+        if start_off >> i & 1:
+            ts[i].dispatch_enabled = False
+            enabled[i] = False
+    if log:
+        raise Violation('no_cross_talk', 'building, registering or disabling '
+                        'notified listeners', kind='registration', dim=dim)
+    stored = {(j, p): getattr(ts[j], p) for j in (0, 1) for p in PROPS}
+    # one record per assignment: i, prop, value (what the property read right
+    # afterwards), must (listeners that have to be told), told, step
+    assigns = []
+    last_assign = {}            # (i, prop) -> record
+    last_told = {}              # (k, prop) -> record
+    counters = collections.Counter()
+    interrupted = [False, False]
+    nondefault = set()
+    n_calls = 0
+
+    def outstanding(i):
+        return sum(len(a['must'] - a['told']) for a in assigns
+                   if a['i'] == i)
+
+    for step, op in enumerate(seq):
+        verb, i = op[0], op[1]
+        t = ts[i]
+        prop = op[2] if verb == 'set' else None
+        feat = dict(dim=dim, op=verb)
+        if prop:
+            feat['prop'] = prop
+        pending_before = [outstanding(0), outstanding(1)]
+        fired_before = pauser.fired
+        del log[:]
+        try:
+            if verb == 'set':
+                value = deferred_value(dim, prop, counters[prop])
+                counters[prop] += 1
+                setattr(t, prop, value)
+            elif verb == 'off':
+                t.dispatch_enabled = False
+            elif verb == 'on':
+                t.dispatch_enabled = True
+            elif verb == 'clear':
+                t.clear()
+            elif verb == 'reg':
+                for k, spec in enumerate(DEFER_LISTENERS):
+                    if spec[2] == i:
+                        t.add_handler(objs[k])
+            else:
+                raise ValueError(f'unknown operation {op!r}')
+        except ValueError:
+            raise
+        except Exception as exc:
+            raise Violation('setter_raises' if verb == 'set' else
+                            'registration_raises' if verb in ('clear', 'reg')
+                            else 'dispatch_toggle_raises',
+                            f'{op!r} raised {type(exc).__name__}: {exc}',
+                            **feat)
+        calls = list(log)
+        if verb == 'set':
+            read = getattr(t, prop)
+            if len(log) != len(calls):
+                raise Violation('no_cross_talk', f'reading t{i}.{prop} '
+                                f'notified listeners', kind='read', **feat)
+            check_stored(dim, prop, value, read,
+                         dict(dim=dim, prop=prop,
+                              band=('vector' if dim != 2 or prop != 'rotation'
+                                    else 'negative' if value < 0 else
+                                    'out_of_range' if value >= 360
+                                    else 'in_range')),
+                         'stores_assigned_value')
+            event = EVENT_OF[prop]
+            rec = dict(i=i, prop=prop, value=read, step=step, told=set(),
+                       must=set(k for k in reg[i] if event in
+                                defer_events_of(DEFER_LISTENERS[k][1])))
+            assigns.append(rec)
+            last_assign[(i, prop)] = rec
+            stored[(i, prop)] = read
+            nondefault.add(i)
+            if not enabled[i]:
+                hits['assignment_while_disabled'] += 1
+                if interrupted[i] and pending_before[i]:
+                    hits['assignment_behind_interrupted_release'] += 1
+            if dim == 2 and prop == 'rotation' and not 0 <= value < 360:
+                hits['rotation_out_of_range'] += 1
+        # -- every call is a notification somebody was still owed
+        for label, ev, args, kwargs in calls:
+            k = index.get(label)
+            if k is None:
+                raise Violation('no_cross_talk', f'{op!r}: call on unknown '
+                                f'listener {label}', kind='unknown', **feat)
+            _, kind, home = DEFER_LISTENERS[k]
+            if ev not in defer_events_of(kind):
+                raise Violation('no_cross_talk', f'{op!r}: listener {label} '
+                                f'got {ev}', kind='other_event', **feat)
+            if k not in reg[home]:
+                raise Violation('no_cross_talk', f'{op!r}: listener {label} '
+                                f'(dropped by t{home}.clear()) was called',
+                                kind='removed', **feat)
+            if len(args) != 1 or kwargs:
+                raise Violation('notified_value_is_stored_value',
+                                f'{op!r}: listener {label} got args={args!r} '
+                                f'kwargs={kwargs!r}, expected the one new '
+                                f'value', **feat)
+            got = args[0]
+            p = PROP_OF[ev]
+            for a in assigns:
+                if (a['i'] == home and a['prop'] == p and k not in a['told']
+                        and value_matches(got, a['value'])):
+                    a['told'].add(k)
+                    last_told[(k, p)] = a
+                    if a['step'] != step:
+                        hits['notification_delivered_later'] += 1
+                    else:
+                        hits['listener_notified'] += 1
+                    break
+            else:
+                same = [a for a in assigns if value_matches(got, a['value'])]
+                where = (f'{op!r}: listener {label} of t{home} was told '
+                         f'{ev}({got!r})')
+                if any(a['i'] == home and a['prop'] == p for a in same):
+                    raise Violation('listener_called_once', f'{where} a '
+                                    f'second time', count='many', **feat)
+                if any(a['i'] != home for a in same):
+                    raise Violation('no_cross_talk', f'{where}, a value '
+                                    f'assigned on the other transform',
+                                    kind='other_instance', **feat)
+                if same:
+                    raise Violation('no_cross_talk', f'{where}, a value '
+                                    f'assigned to {same[0]["prop"]}',
+                                    kind='other_event', **feat)
+                raise Violation('notified_value_is_stored_value',
+                                f'{where}; no assignment of t{home}.{p} '
+                                f'stored that value', **feat)
+        # -- what the harness knows about the gates
+        if verb == 'off':
+            enabled[i] = False
+        elif verb == 'on':
+            enabled[i] = True
+            if interrupted[i] and pending_before[i]:
+                hits['release_resumed_after_interruption'] += 1
+            interrupted[i] = False
+            if pending_before[1 - i]:
+                hits['other_transform_enabled_while_notifications_pending'] \
+                    += 1
+        elif verb == 'clear':
+            enabled[i] = True
+            interrupted[i] = False
+            if pending_before[i]:
+                hits['pending_notifications_dropped_by_clear'] += 1
+            if pending_before[1 - i]:
+                hits['other_transform_cleared_while_notifications_pending'] \
+                    += 1
+            if i in nondefault:
+                hits['clear_of_transform_holding_assigned_values'] += 1
+            reg[i].clear()
+            for a in assigns:           # nobody is owed anything there
+                if a['i'] == i:
+                    a['must'] = set()
+        elif verb == 'reg':
+            if not reg[i]:
+                hits['registered_after_clear'] += 1
+            reg[i] = set(k for k, spec in enumerate(DEFER_LISTENERS)
+                         if spec[2] == i)
+        if pauser.fired != fired_before:
+            # the last write of t0.dispatch_enabled came from the callback
+            enabled[0] = False
+            interrupted[0] = True
+            left = sum(1 for a in assigns
+                       if a['i'] == 0 and a['must'] - a['told'])
+            if verb == 'on' and left:
+                hits['release_interrupted_by_listener'] += 1
+            if verb == 'on' and left >= 2:
+                hits['release_interrupted_two_or_more_left'] += 1
+            if verb == 'set':
+                hits['disabled_from_callback_of_direct_notification'] += 1
+        # -- reads
+        check_persistence(dim, ts, stored, verb, log, len(calls))
+        # -- transforms that dispatch owe nothing
+        for j in (0, 1):
+            if not enabled[j]:
+                if outstanding(j):
+                    hits['notifications_pending_after_operation'] += 1
+                continue
+            for a in assigns:
+                if a['i'] != j:
+                    continue
+                missing = a['must'] - a['told']
+                if missing:
+                    names = sorted(DEFER_LISTENERS[k][0] for k in missing)
+                    raise Violation(
+                        'listener_called_once',
+                        f'after {op!r} t{j} dispatches and nothing can be '
+                        f'pending, yet {names} were never told of '
+                        f't{j}.{a["prop"]} = {a["value"]!r} (operation '
+                        f'{a["step"]})', count='zero',
+                        **dict(feat, prop=a['prop']))
+            for (jj, p), a in sorted(last_assign.items(),
+                                     key=lambda kv: kv[0]):
+                if jj != j:
+                    continue
+                for k in sorted(a['must'] & reg[j]):
+                    last = last_told.get((k, p))
+                    if last is not a:
+                        raise Violation(
+                            'last_notification_is_read_value',
+                            f'after {op!r} t{j} dispatches and nothing can '
+                            f'be pending: the last {EVENT_OF[p]} listener '
+                            f'{DEFER_LISTENERS[k][0]} got carried '
+                            f'{last["value"]!r} but t{j}.{p} reads '
+                            f'{a["value"]!r}', **dict(feat, prop=p))
+                    hits['last_notification_checked'] += 1
+        n_calls += 1 + len(calls) + len(stored)
+    return {'calls': n_calls, 'hits': dict(hits), 'key': repr(case)}
+
+
 # -- E3: constructor arguments ---------------------------------------------
 def constructor_cases(tier=None):
     """(dim, position idx|None, rotation idx|None, scale idx|None, mode)
@@ -1203,6 +1661,8 @@ E3_PARTS = {
     'registration-histories': (run_registration_case, registration_cases),
     'constructor': (run_constructor_case, constructor_cases),
     'reentrant': (run_reentrant_case, reentrant_cases),
+    'deferred': (run_deferred_case, deferred_cases),
+    'deferred-interrupted': (run_deferred_case, interrupted_cases),
 }
 
 
@@ -1235,9 +1695,37 @@ def run(tier, rep):
         'process-wide caches inside desper that depend on which listener '
         'was registered first see the enumeration order of the run (every '
         'worker is forked after the classes exist)',
-        'dispatch_enabled = False (queued notifications) belongs to C04 and '
-        'is outside the alphabet; listeners have no side effects, except '
-        'the correcting listener of part "reentrant"',
+        'dispatch_enabled = False / True and clear() are operations of the '
+        'parts "deferred" and "deferred-interrupted" only (clear() also of '
+        '"registration-histories"); elsewhere every transform dispatches.  '
+        'Listeners have no side effects, except the correcting listener of '
+        'part "reentrant" and the pausing listener of part '
+        '"deferred-interrupted"; no listener raises',
+        'parts "deferred" / "deferred-interrupted": WHEN a held-back '
+        'notification is delivered, and to whom of the listeners that were '
+        'registered meanwhile, is C04, not C20 - accepted either way.  '
+        'Demanded: (1) every call of a listener is for an event it is '
+        'subscribed to, on a transform it is registered on at that moment, '
+        'with one positional argument that is the value stored by an '
+        'assignment of that property on that transform (what the property '
+        'read right after the assignment; vectors: that very object) which '
+        'this listener has not been told yet - else it is a second '
+        'notification, a value of the other transform, of another property, '
+        'or a value never stored; (2) after every operation, for each '
+        'transform the harness knows to be dispatching (the last write of '
+        'its dispatch_enabled - by the harness or by the pausing listener - '
+        'was True, or clear() which documents enabling; no trust in what '
+        'desper reports) every listener has been told every assignment made '
+        'while it was registered (clear() cancels what its listeners were '
+        'owed: "pending events are lost" is documented, delivering them '
+        'during clear() would be accepted too), and the notification it got '
+        'last for a property carries the value of the last assignment, i.e. '
+        'what the property reads; (3) after every operation every property '
+        'of both transforms reads the value last stored (== or identity), '
+        'in particular after clear() and after enabling.  Not demanded: '
+        'that nothing is delivered while disabled, the order of '
+        'notifications other than which one comes last, what '
+        'dispatch_enabled reads',
         'part "reentrant": after the OUTERMOST assignment returns the '
         'property reads the value carried by the last notification of the '
         'matching event, judged on the ledger of the correcting listener '
@@ -1279,6 +1767,21 @@ def run(tier, rep):
                      assignment_after_removal=1,
                      assignment_after_removal_of_double_registration=1,
                      registered_again_after_removal=1,
+                     listener_removed_by_clear=1, assignment_after_clear=1,
+                     registered_after_clear=1,
+                     clear_of_transform_holding_assigned_values=1,
+                     assignment_while_disabled=1,
+                     notification_delivered_later=1,
+                     notifications_pending_after_operation=1,
+                     last_notification_checked=1,
+                     pending_notifications_dropped_by_clear=1,
+                     other_transform_enabled_while_notifications_pending=1,
+                     other_transform_cleared_while_notifications_pending=1,
+                     release_interrupted_by_listener=1,
+                     release_interrupted_two_or_more_left=1,
+                     release_resumed_after_interruption=1,
+                     assignment_behind_interrupted_release=1,
+                     disabled_from_callback_of_direct_notification=1,
                      **{f'reentrant_{d}d_{p}': 1 for d in (2, 3)
                         for p in PROPS})
     for name, (driver, kw) in drivers(tier).items():
@@ -1302,6 +1805,21 @@ def run(tier, rep):
                            'rotation_3d': f'|x| > {CLAMP} -> x clamped',
                            'position_scale': 'vectors 1 and 2 -> second '
                                              'component zeroed'})
+        if part in ('deferred', 'deferred-interrupted'):
+            inter = part == 'deferred-interrupted'
+            params = dict(
+                max_sequence_length=(INTERRUPT_MAX_LEN if inter
+                                     else DEFER_MAX_LEN)[tier],
+                operations=[list(op) for op in
+                            (interrupted_ops() if inter else deferred_ops())],
+                listeners=[[lab, kind_text(k) if k != 'pause' else 'pause',
+                            home] for lab, k, home in DEFER_LISTENERS],
+                rotations_in_order_of_assignment=list(DEFER_ROTATIONS),
+                vectors_in_order_of_assignment=list(DEFER_VECTORS),
+                disabled_at_start=['t0'] if inter else [],
+                pausing_ordinals=(f'every non-empty subset of 1..'
+                                  f'{INTERRUPT_ORDINALS[tier]}' if inter
+                                  else 'none (the listener is passive)'))
         kernel.enumerate_cases(runner, cases(tier), rep, part,
                                params=params)
 
